@@ -8,6 +8,7 @@ import (
 	"encoding/base64"
 	"net/http"
 	"net/http/httptest"
+	"net/url"
 
 	"encoding/json"
 	"errors"
@@ -640,6 +641,21 @@ func (p *Pipe) Exec(s Step, dids []int) error {
 			arr[i] = views[strconv.Itoa(d)]
 		}
 		p.log(map[string]interface{}{"ev": "ResolveAll", "views": arr})
+	case "ResolveHist":
+		// every DID at every version time 1..len(ledger) and at the reference of every ledger entry (C06 through the
+		// document handler / the REST query parameters)
+		L := len(p.ledger)
+		times := make([][]View, len(dids))
+		versions := make([][]View, len(dids))
+		for i, d := range dids {
+			times[i], versions[i] = []View{}, []View{}
+			for T := 1; T <= L; T++ {
+				vt := time.Unix(int64(T), 0).UTC().Format(time.RFC3339)
+				times[i] = append(times[i], p.view(p.resolveAt(p.DID(d), "versionTime", vt)))
+				versions[i] = append(versions[i], p.view(p.resolveAt(p.DID(d), "versionId", "ref"+strconv.Itoa(T))))
+			}
+		}
+		p.log(map[string]interface{}{"ev": "ResolveHist", "times": times, "versions": versions})
 	default:
 		return fmt.Errorf("unknown step %q", s.A)
 	}
@@ -792,6 +808,30 @@ func (p *Pipe) submit(req []byte) error {
 		return nil
 	}
 	return fmt.Errorf("HTTP %d: %s", rw.Code, strings.TrimSpace(rw.Body.String()))
+}
+
+// resolveAt is resolve with a version option (versionTime / versionId): a resolution option of the document handler or,
+// with ViaREST, a query parameter of the resolve endpoint.
+func (p *Pipe) resolveAt(did, param, value string) (*document.ResolutionResult, error) {
+	if !p.ViaREST {
+		if param == "versionTime" {
+			return p.handler.ResolveDocument(did, document.WithVersionTime(value))
+		}
+		return p.handler.ResolveDocument(did, document.WithVersionID(value))
+	}
+	h := restdoc.NewResolveHandler(p.handler, noMetrics{})
+	rw := httptest.NewRecorder()
+	q := url.Values{param: {value}}.Encode()
+	r := mux.SetURLVars(httptest.NewRequest(http.MethodGet, "/identifiers/"+did+"?"+q, nil), map[string]string{"id": did})
+	h.Resolve(rw, r)
+	if rw.Code != http.StatusOK {
+		return nil, fmt.Errorf("HTTP %d: %s", rw.Code, strings.TrimSpace(rw.Body.String()))
+	}
+	var rr document.ResolutionResult
+	if err := json.Unmarshal(rw.Body.Bytes(), &rr); err != nil {
+		return nil, err
+	}
+	return &rr, nil
 }
 
 // resolve resolves a DID directly or, with ViaREST, through the real ResolveHandler (GET /identifiers/{id}).
